@@ -36,6 +36,8 @@ IR_RUNS.update({
                       ("MC", "hier_walk", 12, 40)],
             "thorough": [("MC", "hier11", 4), ("MC", "hier11", 12, 600), ("MC", "hier_edit", 2),
                          ("MC", "hier_edit", 10, 400), ("MC", "hier_walk", 16, 1500)]},
+    "C07": {"quick": [("MC", "clone", 2), ("MC", "clone_edit", 0)],
+            "thorough": [("MC", "clone", 5), ("MC", "clone", 10, 60), ("MC", "clone_edit", 1)]},
     "C08": {"quick": [("MC", "xf", 3), ("MC", "xf_port", 4), ("MC", "xf", 12, 40)],
             "thorough": [("MC", "xf", 5), ("MC", "xf_port", 11), ("MC", "xf", 14, 1500)]},
     "C09": {"quick": [("MC", "xf", 2), ("MC", "xf_port", 6), ("MC", "xf", 12, 30)],
@@ -44,6 +46,11 @@ IR_RUNS.update({
             "thorough": [("MC", "hier12", 5), ("MC", "hier12", 14, 1000)]},
 })
 IR_RULE = {
+    "C07": "designs = reachable states of the build scope clone (three libraries with cross-library references, named and "
+           "unnamed instances, top instance stand-alone); on each, clone() with EVERY element of every kind as the root "
+           "(strict conformance to the TLA+ clone model including ids); scope clone_edit: a netlist and its clone side "
+           "by side, every IR edit and uniquify / uniquify+flatten on either; distinct_nontrivial counts distinct "
+           "(design, clone root) pairs plus distinct (state, edit) pairs of the side-by-side scope",
     "C08": "designs = reachable states of the build scope xf (two libraries, leaf / feed-through-capable mid / top with a "
            "bus port; sharing at two depths; BFS + TLC -simulate); on each the pipeline uniquify; uniquify; flatten is run on "
            "the real code; distinct_nontrivial counts distinct designs in which some non-leaf definition is shared",
@@ -123,7 +130,7 @@ def _diff_fields(a, b):
 
 def _detail(sig, clause, rec, header):
     st = rec.get("state") if rec.get("state") else header.get("state")
-    if clause == "C10_LookupAgrees" and st:
+    if clause in ("C10_LookupAgrees", "C07_SameAnswers") and st:
         sig["lookup_classes"] = _lookup_classes(st)
     if clause == "C14_RefusedUnchanged" and rec.get("state"):
         sig["changed_fields"] = _diff_fields(header["state"], rec["state"])
@@ -232,4 +239,4 @@ def ir_history(pid, tier, seed, replay=None, runs=None, strict=True):
 
 
 HANDLERS = {"C01": ir_history, "C02": ir_history, "C14": ir_history, "C10": ir_history, "C19": ir_history, "C11": ir_history,
-            "C12": ir_history, "C08": ir_history, "C09": ir_history}
+            "C12": ir_history, "C08": ir_history, "C09": ir_history, "C07": ir_history}
